@@ -334,6 +334,14 @@ class _Return(Exception):
         self.value = value
 
 
+class _Break(Exception):
+    pass
+
+
+class _Continue(Exception):
+    pass
+
+
 class Frame:
     def __init__(self, fi: Optional[FuncInfo], module: ModuleInfo, env=None, parent=None):
         self.fi = fi
@@ -1440,10 +1448,24 @@ class Interp:
         it = self.eval(s.iter, fr)
         if not isinstance(it, (list, tuple)):
             raise Unsupported(f"for loop over {it!r}")
+        broke = False
         for v in it:
             self.assign(s.target, v, fr)
-            self.exec_block(s.body, fr)
-        self.exec_block(s.orelse, fr)
+            try:
+                self.exec_block(s.body, fr)
+            except _Continue:
+                continue
+            except _Break:
+                broke = True
+                break
+        if not broke:
+            self.exec_block(s.orelse, fr)
+
+    def s_Break(self, s, fr):
+        raise _Break()
+
+    def s_Continue(self, s, fr):
+        raise _Continue()
 
     def _comp(self, node, fr, elt_fn):
         out = []
